@@ -128,6 +128,7 @@ func TestC16(t *testing.T) {
 			realClientSlowService(t, r, i)
 		}
 		realClientFailingStatus(t, r)
+		secondStoreWithoutLookups(t, r)
 		for i := 0; i < r.N(12, 120); i++ {
 			lookupWhoseCacheWriteFails(t, r, i)
 		}
@@ -135,7 +136,7 @@ func TestC16(t *testing.T) {
 			lookupDuringPollOfStaleSecret(t, r, i)
 		}
 	}
-	r.Require("callers_with_a_cancellable_context_without_deadline", "requests_timed_out_inside_the_client", "lookups_whose_cache_write_failed", "lookups_disabled_cases", "lookups_enabled_cases", "shared_flights", "failed_lookups", "hang_bounded_callers", "retry_after_foreign_cancel", "successful_lookups", "stress_lookups", "cases_with_failing_cache", "handles_followed_a_later_poll", "updaters_followed_a_later_poll", "real_client_cancel_cases", "overlapping_cache_writes", "real_client_slow_service_cases", "lookups_after_the_service_recovered", "real_client_failing_status_cases", "lookups_during_a_poll_of_a_stale_secret")
+	r.Require("calls_on_a_second_store_without_lookups", "callers_with_a_cancellable_context_without_deadline", "requests_timed_out_inside_the_client", "lookups_whose_cache_write_failed", "lookups_disabled_cases", "lookups_enabled_cases", "shared_flights", "failed_lookups", "hang_bounded_callers", "retry_after_foreign_cancel", "successful_lookups", "stress_lookups", "cases_with_failing_cache", "handles_followed_a_later_poll", "updaters_followed_a_later_poll", "real_client_cancel_cases", "overlapping_cache_writes", "real_client_slow_service_cases", "lookups_after_the_service_recovered", "real_client_failing_status_cases", "lookups_during_a_poll_of_a_stale_secret")
 	r.Rule("seeded cases: AllowLookup on/off; 1-2 undeclared names each with a service mode (ok, slow D, fail, fail-then-ok, hang for ever, not found) and 1-6 callers (LookupSecret / NewUpdater / Fields.Apply) with start offsets and contexts (background, deadline 1 s/1 min/10 min, cancelled at a random instant). Distinct = (AllowLookup, service mode, number of callers, set of context kinds, set of caller outcomes)")
 }
 
@@ -1154,5 +1155,69 @@ func lookupWhoseCacheWriteFails(t *testing.T, r *evid.Run, idx int) {
 	json.Unmarshal(cache.Last(), &payload)
 	if _, ok := payload[name]; !ok {
 		r.Violation("looked-up-secret-not-cached", idx, fmt.Sprintf("%s: the lookup succeeded, the cache works again, %d poll(s) have completed since (nothing new at the service) - and the cache still does not hold the secret: %s", what, polls, cache.Last()), nil)
+	}
+}
+
+// secondStoreWithoutLookups: a program re-creates its store, now with lookups DISABLED, and goes on using what
+// it prepared against the first one (a parsed Fields value, names it had looked up). On the second store every
+// name it does not know is refused - LookupSecret, NewUpdater and Apply report an error, Secret panics - and no
+// request is sent, whatever the first store knew.
+func secondStoreWithoutLookups(t *testing.T, r *evid.Run) {
+	svc := fakesvc.New()
+	for _, n := range []string{"known", "undeclared/one", "undeclared/two"} {
+		svc.Set(n, 3, value(n))
+	}
+	mk := func(allow bool) *setec.Store {
+		st, err := setec.NewStore(context.Background(), setec.StoreConfig{Client: svc, Secrets: []string{"known"}, AllowLookup: allow, PollInterval: -1, Logf: func(string, ...any) {}})
+		if err != nil {
+			t.Fatal(err)
+		}
+		return st
+	}
+	var v struct {
+		One string `setec:"undeclared/one"`
+		Two []byte `setec:"undeclared/two"`
+	}
+	f, err := setec.ParseFields(&v, "")
+	if err != nil {
+		t.Fatal(err)
+	}
+	ctx := context.Background()
+	a := mk(true)
+	if err := f.Apply(ctx, a); err != nil || v.One != string(value("undeclared/one")) {
+		r.Violation("lookup-fails", -1, fmt.Sprintf("Apply on a store with lookups enabled: %v (field %q)", err, v.One), nil)
+	}
+	a.LookupSecret(ctx, "undeclared/one")
+	a.Close()
+	b := mk(false)
+	defer b.Close()
+	base := svc.NumRequests()
+	v.One, v.Two = "", nil
+	calls := map[string]func() error{
+		"Fields.Apply (the Fields value was applied to the first store before)": func() error { return f.Apply(ctx, b) },
+		"LookupSecret": func() error { _, err := b.LookupSecret(ctx, "undeclared/one"); return err },
+		"NewUpdater": func() error {
+			_, err := setec.NewUpdater(ctx, b, "undeclared/two", func(x []byte) (string, error) { return string(x), nil })
+			return err
+		},
+	}
+	for what, call := range calls {
+		err := call()
+		r.Eval(1)
+		r.Count("calls_on_a_second_store_without_lookups", 1)
+		r.Distinct("second store without lookups: " + strings.SplitN(what, " ", 2)[0])
+		if err == nil {
+			r.Violation("disabled-lookup-succeeded", -1, fmt.Sprintf("second store, lookups disabled, names unknown to it: %s reported success (fields now hold %q / %q)", what, v.One, v.Two), nil)
+		}
+	}
+	if n := svc.NumRequests() - base; n != 0 {
+		r.Violation("disabled-lookup-sent-request", -1, fmt.Sprintf("the second store (lookups disabled) sent %d request(s)", n), nil)
+	}
+	if p := func() (p any) {
+		defer func() { p = recover() }()
+		b.Secret("undeclared/one")
+		return nil
+	}(); p == nil {
+		r.Violation("disabled-secret-no-panic", -1, "Secret of an unknown name on the second store did not panic", nil)
 	}
 }
